@@ -334,11 +334,11 @@ def check(run):
 def replay(rec):
     pl = rec.get("payload") or {}
     if pl.get("kind") != "state":
-        return True
+        return common.replay_by_rerun(sys.modules[__name__], rec)
     cols = m1.small_curve(30)
     idnt = states(cols)[pl["state"]]()
     try:
         idnt.rate_quality(regressor=pl["regressor"])
     except BaseException:
         return False
-    return True
+    return common.replay_by_rerun(sys.modules[__name__], rec)
